@@ -559,9 +559,6 @@ func signature(d *Decl, v verdict) string {
 			// a rational that is not a float64 is rounded to 512 bits first, then to the float type
 			return "rat-float-double-rounding"
 		}
-		if strings.HasPrefix(v.kind, "accepts:") && e.K == "bin" && e.Op == ">>" && (goClass(e.X) == "uf" || goClass(e.X) == "uc") {
-			return "shr-of-float-above-512-bits"
-		}
 		if d.T != "" {
 			if w := compare((&Decl{E: e}).Program()); w.kind == "" && w.soft {
 				return "float-rounding-visible"
@@ -872,6 +869,11 @@ var corpus = []string{
 	"const C = complex64(1) >= complex64(2)",
 	"const C = 2 < (1+0i)",
 	"const C = complex128(1) == 1",
+	// regressions of fix c78e043 (the result of >> was not checked against the 512 bit limit)
+	"const C = 0x1p1000 >> 65",
+	"const C = 0x1p600 >> 200",
+	"const C = 1e400 >> 1",
+	"const C = 1e400 >> 1000",
 }
 
 // oracleDefect recognises the one input class on which go/constant itself is
